@@ -89,7 +89,7 @@ def inject(rng, segs, d, rows, force_kind=None, force_i=None):
         line, sid, node, seg = rows[i]
         parts = segs[i].split(d[1])
         kind = rng.choice(['too_long', 'too_short', 'bad_code', 'bad_class', 'bad_date', 'bad_time', 'missing_required_ele',
-                           'not_used_ele', 'too_many_elements', 'unknown_segment', 'missing_required_segment', 'syntax_note', 'syntax_note', 'wrong_format'])
+                           'not_used_ele', 'too_many_elements', 'unknown_segment', 'missing_required_segment', 'missing_required_loop', 'syntax_note', 'syntax_note', 'wrong_format'])
         if force_kind is not None:
             kind = force_kind
         kids = node.children
@@ -214,6 +214,27 @@ def inject(rng, segs, d, rows, force_kind=None, force_i=None):
             new = list(segs)
             new.insert(i + 1, d[1].join(['ZZZ', 'X']))
             return kind, new, (['1'], line + 1, None, 's'), True
+        if kind == 'missing_required_loop':
+            lp = node.parent
+            if not node.is_first_seg_in_loop() or lp is None or getattr(lp, 'usage', None) != 'R' or getattr(lp, 'type', None) == 'wrapper' \
+                    or lp.id in ('ISA_LOOP', 'GS_LOOP', 'ST_LOOP'):
+                continue
+
+            def inside(n):
+                while n is not None:
+                    if n is lp:
+                        return True
+                    n = getattr(n, 'parent', None)
+                return False
+            j = i + 1
+            while j < len(rows) and rows[j][2] is not None and rows[j][2] is not node and inside(rows[j][2]):
+                j += 1
+            if (j < len(rows) and rows[j][2] is node) or (i > 0 and rows[i - 1][2] is not None and inside(rows[i - 1][2])):
+                continue            # one of several instances: deleting it leaves the document conformant
+            if any(rows[k][1] in ('HL', 'LX') for k in range(i, j)):
+                continue            # numbering / hierarchy of the REMAINING segments would change
+            new = segs[:i] + segs[j:]
+            return kind, new, (['3'], None, None, 's'), True
         if kind == 'missing_required_segment':
             if node.usage != 'R' or node.is_first_seg_in_loop():
                 continue
@@ -248,7 +269,7 @@ def run(ctx, report):
     report.rule = ('conformant documents (confgen, 2 sets each so that the untouched set must stay accepted) of %d maps x one injected '
                    'fault from the catalogue {too long, too short, outside code list, wrong character class, impossible date, '
                    'impossible time, missing required element, value in a not-used element, too many elements, broken syntax note, value in another '
-                   'allowed format than the qualifier declares, unknown segment, missing required segment}: verdict False, an error with the matching standard code reported at the segment '
+                   'allowed format than the qualifier declares, unknown segment, missing required segment, missing required loop (all segments of its only instance)}: verdict False, an error with the matching standard code reported at the segment '
                    '(source line) and element position of the fault; for non-structural faults nothing else is reported and the '
                    'other set is acknowledged A.  Distinct = (document, fault).' % len(walk_gen.QUICK_MAPS))
     names = list(walk_gen.DOC_MAPS if thorough else walk_gen.QUICK_MAPS)
@@ -273,6 +294,10 @@ def run(ctx, report):
         with_notes = [i for i, r in enumerate(rows) if r[2] is not None and r[1] not in docgen.ENVELOPE and getattr(r[2], 'syntax', None)]
         rng.shuffle(with_notes)
         plan += [('syntax_note', i) for i in with_notes[:(10 if thorough else 6)]]
+        req_loops = [i for i, r in enumerate(rows) if r[2] is not None and r[1] not in docgen.ENVELOPE and r[2].is_first_seg_in_loop()
+                     and getattr(r[2].parent, 'usage', None) == 'R']
+        rng.shuffle(req_loops)
+        plan += [('missing_required_loop', i) for i in req_loops[:(8 if thorough else 5)]]
         dtps = [i for i, r in enumerate(rows) if r[1] == 'DTP' and r[2] is not None]
         rng.shuffle(dtps)
         plan += [('wrong_format', i) for i in dtps[:(6 if thorough else 3)]]
